@@ -17,6 +17,8 @@ package inventory
 
 import (
 	"bytes"
+	"crypto/sha256"
+	"encoding/hex"
 	"fmt"
 	"go/ast"
 	"go/parser"
@@ -24,6 +26,7 @@ import (
 	"go/token"
 	"os"
 	"path/filepath"
+	"reflect"
 	"sort"
 	"strings"
 )
@@ -36,6 +39,30 @@ type Site struct {
 	Text string // normalised source text of the expression
 	N    int    // ordinal among equal (File, Func, Kind, Text)
 	Line int    // informational only
+	// Guards is the GUARD FINGERPRINT of the site: the conditions under which
+	// control reaches it, as far as the syntax of the enclosing declaration
+	// tells — from the outermost to the innermost, the enclosing
+	// if/else/switch-case/for/range headers and short-circuit operands, and
+	// every `if` / `switch` statement that precedes the site in one of its
+	// enclosing blocks (the early exits `if len(xs) != 2 { return }` and the
+	// clamps `if i > len(s) { i = len(s) }`).  A site that the baseline lists
+	// as reviewed was read WITH these guards in place: the baseline records the
+	// fingerprint, and a site whose fingerprint differs is `guard-changed`.
+	Guards []string
+}
+
+// GuardText is the fingerprint as one line ("-" when the site has no guard).
+func (s Site) GuardText() string {
+	if len(s.Guards) == 0 {
+		return "-"
+	}
+	return strings.Join(s.Guards, " ;; ")
+}
+
+// GuardHash is a short hash of GuardText (what the baseline compares).
+func (s Site) GuardHash() string {
+	h := sha256.Sum256([]byte(s.GuardText()))
+	return hex.EncodeToString(h[:6])
 }
 
 // Key is the baseline key of the site.
@@ -234,6 +261,12 @@ type scanner struct {
 	sites   []Site
 	// type assertions that are checked (v, ok := x.(T)) or part of a type switch
 	checked map[*ast.TypeAssertExpr]bool
+	// ancestors of the node being visited (outermost first), the node itself last
+	stack []ast.Node
+	// assignments of the declaration being walked, by assigned identifier
+	defs map[string][]string
+	// the expressions the guards of the current site consist of
+	guardNodes []ast.Node
 }
 
 func (sc *scanner) text(n ast.Node) string {
@@ -253,7 +286,244 @@ func (sc *scanner) add(kind string, n ast.Node) {
 	ord := sc.counts[k]
 	sc.counts[k] = ord + 1
 	sc.sites = append(sc.sites, Site{File: sc.rel, Func: sc.fn, Kind: kind, Text: t, N: ord,
-		Line: sc.fset.Position(n.Pos()).Line})
+		Line: sc.fset.Position(n.Pos()).Line, Guards: sc.guards()})
+}
+
+// full source text of a node on one line (not truncated: guards are compared)
+func (sc *scanner) src(n ast.Node) string {
+	if n == nil || reflect.ValueOf(n).IsNil() {
+		return ""
+	}
+	var b bytes.Buffer
+	printer.Fprint(&b, sc.fset, n)
+	return strings.Join(strings.Fields(b.String()), " ")
+}
+
+// terminates: the statement list ends by leaving the enclosing block
+// (return / break / continue / goto / panic(…) / os.Exit(…)).
+func terminates(list []ast.Stmt) bool {
+	if len(list) == 0 {
+		return false
+	}
+	switch s := list[len(list)-1].(type) {
+	case *ast.ReturnStmt, *ast.BranchStmt:
+		return true
+	case *ast.ExprStmt:
+		if c, ok := s.X.(*ast.CallExpr); ok {
+			if id, ok := c.Fun.(*ast.Ident); ok && id.Name == "panic" {
+				return true
+			}
+			if sel, ok := c.Fun.(*ast.SelectorExpr); ok && sel.Sel.Name == "Exit" {
+				return true
+			}
+		}
+	case *ast.BlockStmt:
+		return terminates(s.List)
+	case *ast.IfStmt:
+		if s.Else == nil {
+			return false
+		}
+		eb, ok := s.Else.(*ast.BlockStmt)
+		if !ok {
+			return terminates(s.Body.List) && terminates([]ast.Stmt{s.Else})
+		}
+		return terminates(s.Body.List) && terminates(eb.List)
+	}
+	return false
+}
+
+func (sc *scanner) header(init ast.Stmt, cond ast.Expr) string {
+	if cond != nil {
+		sc.guardNodes = append(sc.guardNodes, cond)
+	}
+	if init != nil {
+		sc.guardNodes = append(sc.guardNodes, init)
+	}
+	h := sc.src(cond)
+	if init != nil {
+		h = sc.src(init) + "; " + h
+	}
+	return h
+}
+
+// effect of a branch on what follows it: "→exit" when it leaves, the text of a
+// short body (a clamp, a default) otherwise
+func (sc *scanner) effect(list []ast.Stmt) string {
+	switch {
+	case terminates(list):
+		return " →exit"
+	case len(list) == 1:
+		if t := sc.src(list[0]); len(t) <= 80 {
+			return " { " + t + " }"
+		}
+	}
+	return " {…}"
+}
+
+// preceding describes an if/switch statement that comes before the site in one
+// of its enclosing blocks.
+func (sc *scanner) preceding(s ast.Stmt) (string, bool) {
+	switch s := s.(type) {
+	case *ast.IfStmt:
+		t := "pre-if " + sc.header(s.Init, s.Cond) + sc.effect(s.Body.List)
+		switch e := s.Else.(type) {
+		case *ast.BlockStmt:
+			t += " else" + sc.effect(e.List)
+		case *ast.IfStmt:
+			if inner, ok := sc.preceding(e); ok {
+				t += " else " + strings.TrimPrefix(inner, "pre-")
+			}
+		}
+		return t, true
+	case *ast.SwitchStmt:
+		t := "pre-switch " + sc.header(s.Init, s.Tag)
+		for _, c := range s.Body.List {
+			cc := c.(*ast.CaseClause)
+			t += " | " + sc.caseText(cc) + sc.effect(cc.Body)
+		}
+		return t, true
+	case *ast.LabeledStmt:
+		return sc.preceding(s.Stmt)
+	}
+	return "", false
+}
+
+func (sc *scanner) caseText(cc *ast.CaseClause) string {
+	if cc.List == nil {
+		return "default"
+	}
+	var xs []string
+	for _, e := range cc.List {
+		xs = append(xs, sc.src(e))
+	}
+	return "case " + strings.Join(xs, ", ")
+}
+
+// guards computes the fingerprint of the node on top of the stack.
+func (sc *scanner) guards() []string {
+	var gs []string
+	sc.guardNodes = sc.guardNodes[:0]
+	defer func() { sc.guardNodes = sc.guardNodes[:0] }()
+	before := func(list []ast.Stmt, child ast.Node) {
+		for _, st := range list {
+			if st == child {
+				break
+			}
+			if t, ok := sc.preceding(st); ok {
+				gs = append(gs, t)
+			}
+		}
+	}
+	for i := 0; i+1 < len(sc.stack); i++ {
+		a, child := sc.stack[i], sc.stack[i+1]
+		switch a := a.(type) {
+		case *ast.BlockStmt:
+			before(a.List, child)
+		case *ast.IfStmt:
+			switch child {
+			case ast.Node(a.Body):
+				gs = append(gs, "if "+sc.header(a.Init, a.Cond))
+			case a.Else:
+				gs = append(gs, "else-of "+sc.header(a.Init, a.Cond))
+			}
+		case *ast.SwitchStmt:
+			if child == ast.Node(a.Body) {
+				gs = append(gs, "switch "+sc.header(a.Init, a.Tag))
+			}
+		case *ast.TypeSwitchStmt:
+			if child == ast.Node(a.Body) {
+				gs = append(gs, "typeswitch "+sc.src(a.Assign))
+			}
+		case *ast.CaseClause:
+			inBody := false
+			for _, st := range a.Body {
+				if st == child {
+					inBody = true
+				}
+			}
+			if !inBody {
+				break
+			}
+			// the clauses tried before this one, then this one
+			if i >= 1 {
+				if blk, ok := sc.stack[i-1].(*ast.BlockStmt); ok {
+					for _, c := range blk.List {
+						cc, ok := c.(*ast.CaseClause)
+						if !ok || cc == a {
+							break
+						}
+						gs = append(gs, "after-"+sc.caseText(cc))
+					}
+				}
+			}
+			gs = append(gs, sc.caseText(a))
+			before(a.Body, child)
+		case *ast.CommClause:
+			before(a.Body, child)
+		case *ast.ForStmt:
+			if child == ast.Node(a.Body) {
+				h := sc.src(a.Cond)
+				if a.Init != nil || a.Post != nil {
+					h = sc.src(a.Init) + "; " + h + "; " + sc.src(a.Post)
+				}
+				gs = append(gs, "for "+h)
+				if a.Cond != nil {
+					sc.guardNodes = append(sc.guardNodes, a.Cond)
+				}
+			}
+		case *ast.RangeStmt:
+			if child == ast.Node(a.Body) {
+				h := "range " + sc.src(a.X)
+				if a.Key != nil {
+					kv := sc.src(a.Key)
+					if a.Value != nil {
+						kv += ", " + sc.src(a.Value)
+					}
+					h = kv + " " + a.Tok.String() + " " + h
+				}
+				gs = append(gs, "for "+h)
+			}
+		case *ast.BinaryExpr:
+			if (a.Op == token.LAND || a.Op == token.LOR) && child == ast.Node(a.Y) {
+				gs = append(gs, "after "+sc.src(a.X)+" "+a.Op.String())
+				sc.guardNodes = append(sc.guardNodes, a.X)
+			}
+		}
+	}
+	// where the identifiers of the guards and of the site itself get their
+	// values (`isVar := strings.HasPrefix(qname, "$")`, `elems, err :=
+	// vals.Collect(v)`): a guard through a variable is only as good as the
+	// variable's definition
+	if len(sc.stack) > 0 {
+		sc.guardNodes = append(sc.guardNodes, sc.stack[len(sc.stack)-1])
+	}
+	names := map[string]bool{}
+	for _, n := range sc.guardNodes {
+		ast.Inspect(n, func(m ast.Node) bool {
+			switch m := m.(type) {
+			case *ast.FuncLit:
+				return false
+			case *ast.Ident:
+				names[m.Name] = true
+			}
+			return true
+		})
+	}
+	var where []string
+	seen := map[string]bool{}
+	for name := range names {
+		if name == "err" || name == "ok" {
+			continue // assigned all over a function; checked right where they are assigned
+		}
+		for _, d := range sc.defs[name] {
+			if !seen[d] {
+				seen[d] = true
+				where = append(where, "where "+d)
+			}
+		}
+	}
+	sort.Strings(where)
+	return append(gs, where...)
 }
 
 func lastName(e ast.Expr) string {
@@ -306,6 +576,32 @@ func isConstSize(e ast.Expr) bool {
 
 func (sc *scanner) walk(root ast.Node) {
 	sc.checked = map[*ast.TypeAssertExpr]bool{}
+	sc.defs = map[string][]string{}
+	addDef := func(lhs []ast.Expr, n ast.Node) {
+		t := sc.src(n)
+		if r := []rune(t); len(r) > 160 {
+			h := sha256.Sum256([]byte(t))
+			t = string(r[:160]) + "…#" + hex.EncodeToString(h[:4])
+		}
+		for _, l := range lhs {
+			if id, ok := l.(*ast.Ident); ok && id.Name != "_" {
+				sc.defs[id.Name] = append(sc.defs[id.Name], t)
+			}
+		}
+	}
+	ast.Inspect(root, func(n ast.Node) bool {
+		switch n := n.(type) {
+		case *ast.AssignStmt:
+			addDef(n.Lhs, n)
+		case *ast.IncDecStmt:
+			addDef([]ast.Expr{n.X}, n)
+		case *ast.ValueSpec:
+			for _, id := range n.Names {
+				addDef([]ast.Expr{id}, n)
+			}
+		}
+		return true
+	})
 	// first pass: mark checked assertions
 	ast.Inspect(root, func(n ast.Node) bool {
 		switch n := n.(type) {
@@ -331,7 +627,13 @@ func (sc *scanner) walk(root ast.Node) {
 		}
 		return true
 	})
+	sc.stack = sc.stack[:0]
 	ast.Inspect(root, func(n ast.Node) bool {
+		if n == nil {
+			sc.stack = sc.stack[:len(sc.stack)-1]
+			return true
+		}
+		sc.stack = append(sc.stack, n)
 		switch n := n.(type) {
 		case *ast.FuncLit, *ast.FuncDecl:
 			// nested literals belong to the enclosing declaration
@@ -401,16 +703,84 @@ func (sc *scanner) walk(root ast.Node) {
 type Entry struct {
 	Key    string
 	Status string // covered-by:<theorem> | reviewed:<reason> | uncovered
+	// for reviewed sites: the guard fingerprint the review was made with
+	// ("" = the baseline records none)
+	GuardHash, GuardText string
 }
 
-// ReadBaseline parses harness/c17/inventory_baseline.txt: one site per line,
-// "<key>\t<status>"; lines starting with '#' are comments.
-func ReadBaseline(path string) (map[string]string, []string, error) {
+// NeedsGuards: the statuses whose justification is a reading of the code
+// around the site (a theorem is tied to the code by the correspondence run
+// instead; an uncovered site claims nothing).
+func NeedsGuards(status string) bool { return strings.HasPrefix(status, "reviewed:") }
+
+// GuardStatus compares a site of the tree with its baseline entry:
+// "" (same guards / not applicable), "guard-changed", "guard-unrecorded".
+func GuardStatus(s Site, e Entry) string {
+	switch {
+	case !NeedsGuards(e.Status):
+		return ""
+	case e.GuardHash == "":
+		return "guard-unrecorded"
+	case e.GuardHash != s.GuardHash():
+		return "guard-changed"
+	}
+	return ""
+}
+
+// GuardDiff names the guards the baseline has and the tree lacks, and vice versa.
+func GuardDiff(s Site, e Entry) string {
+	old := map[string]int{}
+	var oldList []string
+	if e.GuardText != "-" && e.GuardText != "" {
+		oldList = strings.Split(e.GuardText, " ;; ")
+	}
+	for _, g := range oldList {
+		old[g]++
+	}
+	var added []string
+	for _, g := range s.Guards {
+		if old[g] > 0 {
+			old[g]--
+		} else {
+			added = append(added, g)
+		}
+	}
+	var removed []string
+	for _, g := range oldList {
+		if old[g] > 0 {
+			old[g]--
+			removed = append(removed, g)
+		}
+	}
+	q := func(xs []string) string {
+		if len(xs) == 0 {
+			return "none"
+		}
+		return "`" + strings.Join(xs, "`, `") + "`"
+	}
+	if len(added) == 0 && len(removed) == 0 {
+		return "the same guards in another order"
+	}
+	return "guards no longer there: " + q(removed) + "; guards not in the baseline: " + q(added)
+}
+
+// FormatEntry is the baseline line of a site with the given status.
+func FormatEntry(s Site, status string) string {
+	if NeedsGuards(status) {
+		return s.Key() + "\t" + status + "\tg=" + s.GuardHash() + "\t" + s.GuardText()
+	}
+	return s.Key() + "\t" + status
+}
+
+// ReadBaselineFull parses harness/c17/inventory_baseline.txt: one site per
+// line, "<key>\t<status>[\tg=<guard hash>\t<guard text>]"; lines starting with
+// '#' are comments.
+func ReadBaselineFull(path string) (map[string]Entry, []string, error) {
 	data, err := os.ReadFile(path)
 	if err != nil {
 		return nil, nil, err
 	}
-	m := map[string]string{}
+	m := map[string]Entry{}
 	var order []string
 	for i, l := range strings.Split(string(data), "\n") {
 		if l == "" || strings.HasPrefix(l, "#") {
@@ -427,8 +797,36 @@ func ReadBaseline(path string) (map[string]string, []string, error) {
 		if _, dup := m[p[0]]; dup {
 			return nil, nil, fmt.Errorf("%s:%d: duplicate key", path, i+1)
 		}
-		m[p[0]] = st
+		e := Entry{Key: p[0], Status: st}
+		if len(p) >= 3 {
+			if !strings.HasPrefix(p[2], "g=") {
+				return nil, nil, fmt.Errorf("%s:%d: third column must be g=<guard hash>", path, i+1)
+			}
+			e.GuardHash = strings.TrimPrefix(p[2], "g=")
+			if len(p) >= 4 {
+				e.GuardText = p[3]
+				// the text is what a reader reviews, the hash is what is compared: they must agree
+				h := sha256.Sum256([]byte(e.GuardText))
+				if hex.EncodeToString(h[:6]) != e.GuardHash {
+					return nil, nil, fmt.Errorf("%s:%d: guard hash does not match the guard text", path, i+1)
+				}
+			}
+		}
+		m[p[0]] = e
 		order = append(order, p[0])
+	}
+	return m, order, nil
+}
+
+// ReadBaseline returns the statuses only.
+func ReadBaseline(path string) (map[string]string, []string, error) {
+	full, order, err := ReadBaselineFull(path)
+	if err != nil {
+		return nil, nil, err
+	}
+	m := map[string]string{}
+	for k, e := range full {
+		m[k] = e.Status
 	}
 	return m, order, nil
 }
